@@ -155,3 +155,50 @@ func TestVerifC15DirectedIntegerFill(t *testing.T) {
 	}
 	st.Sample(map[string]interface{}{"directed": "integer fill value in iterator options", "dropped": dropped})
 }
+
+// TestVerifC15DirectedMeasurementNamesAndOr: regression for the repaired finding
+// measurement-names-and-or-on-empty-index-panics (a well-formed MeasurementNames request with an
+// AND/OR condition for a database whose local shards are gone dereferenced a nil iterator in
+// tsdb.IndexSet.measurementNamesByExpr).
+func TestVerifC15DirectedMeasurementNamesAndOr(t *testing.T) {
+	st := verifkit.For("C15", "TestVerifC15DirectedMeasurementNamesAndOr", "directed: MeasurementNames requests with AND / OR / nested conditions for a database whose last local shard was removed, a database that never had a shard, and a populated one")
+	defer st.Flush()
+	defer vC15DropBed()
+	reproduced := ""
+	for _, db := range []string{"emptydb", "nodb", "db"} {
+		for _, cond := range []string{"host = 'h1' OR region = 'east'", "host = 'h1' AND region = 'west'", "host = 'h1' OR (region = 'east' AND host !~ /x$/)"} {
+			b, err := vC15GetBed()
+			if err != nil {
+				t.Fatalf("harness: %v", err)
+			}
+			if db == "emptydb" {
+				// a database whose last local shard has been removed (retention, shard moved away):
+				// its series file is still registered in the store but there is no index left
+				if err := b.store.CreateShard("emptydb", "rp", 50, true); err != nil {
+					t.Fatalf("harness: %v", err)
+				}
+				if err := b.store.DeleteShard(50); err != nil {
+					t.Fatalf("harness: %v", err)
+				}
+			}
+			r := MeasurementNamesRequest{Database: db, Condition: vC15ParseCond(cond)}
+			buf, _ := r.MarshalBinary()
+			stream := vC15Encode(measurementNamesRequestMessage, int64(len(buf)), buf)
+			conn, pan, _ := b.feed(stream)
+			st.Case(true, db+"|"+cond, fmt.Sprintf("directed:measurement-names-and-or:db=%s:panicked=%v", db, pan != nil))
+			if pan != nil {
+				vC15DropBed()
+				reproduced = fmt.Sprintf("MeasurementNames on database %q with condition %s: handleConn panicked (%v); a data node would exit", db, cond, pan)
+				continue
+			}
+			frames, _ := vC15Walk(stream)
+			if v := vC15JudgeReplyOnly(conn, frames); v.sig != "" {
+				t.Fatalf("%s %s", verifkit.Sig(v.sig), v.msg)
+			}
+		}
+	}
+	if reproduced != "" {
+		t.Fatalf("%s %s", verifkit.Sig("measurement-names-and-or-on-empty-index-panics"), reproduced)
+	}
+	st.Sample(map[string]interface{}{"directed": "MeasurementNames with AND/OR conditions", "reproduced": reproduced})
+}
